@@ -9,10 +9,38 @@ E3 = "E3 bounded-exhaustive input enumeration (vkit::enumerate)"
 
 # id -> (built, engine, level, technique, text, note, design_ref)
 CHECKS = {
- "C01": (True, E1 + " + " + E2.split(' (')[0] + " driver", "model_checking",
+ "C01": (True, "E1 + E2 driver", "model_checking",
    "explicit-state BFS to fixpoint over two real Tcbs + deviation-bounded enumeration of driver decisions",
    "Every interleaving of writes, reads, flushes, RTO expiries and per-segment deliver/drop/duplicate choices of a two-endpoint system built from the real Tcb is enumerated to a fixpoint within small budgets; in every state the stream-prefix invariant is checked and a fair continuation must deliver, acknowledge and fall silent. Large transfers (above MSS and above the 64 KiB window) are covered by bounded-deviation enumeration around the loss-free run.",
    "Budgets (writes, drops, duplicates, timer expiries) and MTU/ISN values are those listed in the evidence parts; the network model loses/duplicates/reorders but does not corrupt.", "6 C01"),
+ "C03": (True, "E1", "model_checking",
+   "explicit-state BFS to fixpoint over two real Tcbs with close / simultaneous open / old duplicate SYN",
+   "All interleavings of opens, closes (either or both sides, in every state), data, one drop or duplicate and RTO expiries are enumerated on the real Tcb; every call is checked against the RFC 9293 figure-5 transition relation, every state against sequence-space agreement, and from every distinct state a fair continuation in which both applications close must release both TCBs without a reset and with all data delivered before end-of-stream.",
+   "Budgets as listed per model in the evidence; a refused close() counts as not issued; Tcp session-table code (Tcp::open/listen/demux) is exercised by C02, not here.", "6 C03"),
+ "C07": (True, "E1 (+ E3 for constructors)", "model_checking",
+   "explicit-state BFS over a pool of real Messages against plain byte vectors",
+   "Every sequence of Message operations up to the depth bound over a pool of three messages (all range forms, all cut/remove positions, clone/move aliasing, empty chunks) is executed on the real type and compared with Vec<u8> after every step on every slot, including messages that were not operated on.",
+   "Depth bounds and the <= 8 byte length cap are in the evidence; seeded initial pools put three-chunk and sub-window layouts within one step.", "6 C07"),
+ "C08": (True, "E3", "exploration",
+   "bounded-exhaustive enumeration of full field-alphabet products against etherparse and round-trip oracles",
+   "Full Cartesian products of boundary values of every header field (all 64 TCP flag sets, all TOS combinations, extreme lengths, 48-bit MACs, DNS names, DHCP types and strings) are encoded and decoded with the real codecs; value->bytes->value, accepted-bytes->value->bytes and byte-identity with etherparse are checked on every case.",
+   "Alphabets are boundary values, not all 2^n values, per field (listed in the evidence); checksum bytes are masked here (C18 owns them); etherparse 0.10.1 is trusted as the RFC reference.", "6 C08"),
+ "C09": (True, "E1 + E3", "model_checking",
+   "explicit-state BFS over every routing table on a universe of colliding networks + exhaustive arithmetic products",
+   "Every table over a universe of nested/adjacent/extreme networks is reached by every add/remove route (3^10 states, fixpoint) and in each state every boundary address is looked up against a linear-scan longest-prefix reference; subnet arithmetic (contains, overlaps, range conversion, masks, CIDR text) is checked on full products over all 33 mask lengths.",
+   "Universe of 10 (quick) / 13 (thorough) networks; thorough also sweeps all 2^32 lookup addresses on one table.", "6 C09"),
+ "C10": (True, "E3", "exploration",
+   "bounded-exhaustive enumeration of (payload length, MTU, flags, offset) and MTU chains",
+   "Every payload length and MTU in a dense window (all residues of (MTU-20) mod 8), extreme lengths, DF/MF/offset combinations and every decreasing MTU triple are fragmented with the real function and judged against the original datagram: fit, alignment, contiguity, content, MF placement, field preservation.",
+   "quick: lengths 0..=600 x MTU 68..=700; thorough: 0..=2200 x 68..=1600 plus chains; ihl=5 only (Elvis supports no options).", "6 C10"),
+ "C14": (True, "E3 (decoders); NDL and stack parts pending", "exploration",
+   "bounded-exhaustive mutation enumeration of valid packets fed to the six real decoders",
+   "Every truncation, every single-byte value at every position, every pair of structural positions over boundary values, every 2-byte prefix and extreme length-field products of valid seed packets are fed to the real decoders through a real Message; the call must return Ok or Err and never unwind.",
+   "Only the decoder clause is decided so far; the NDL-parser and full-stack clauses of C14 are being built (see DESIGN.md).", "6 C14"),
+ "C18": (True, "E3 (compute_checksum build)", "exploration",
+   "bounded-exhaustive enumeration in the compute_checksum build against an RFC 1071 reference and etherparse, plus all single and double bit flips",
+   "In a separate build with checksums enabled every emitted IPv4/UDP/TCP checksum over the field products (odd/empty/maximal payloads, sums crafted to 0xffff) must verify under an independent RFC 1071 sum and agree with etherparse, the decoders must accept etherparse-built packets, and every single- and double-bit corruption the checksum can detect must be rejected.",
+   "Flip windows cover all header bits, first/last 8 payload bytes and pseudo-header addresses of ~100-200 emitted packets.", "6 C18"),
 }
 REASON_UNBUILT = "check not built yet in this session (see DESIGN.md section 6 for the planned check)"
 
